@@ -89,6 +89,14 @@ func init() {
 			fr.i.clockSymbolic = a[0].(bool)
 			return nil
 		},
+		// the current reading of the virtual monotonic clock, without advancing it
+		"vndClockPeek": func(fr *frame, a []value) value {
+			v := fr.i.clockVal()
+			if t, ok := v.(*Term); ok {
+				return fromTerm(t, types.Typ[types.Int64])
+			}
+			return asInt64(v)
+		},
 		"vndGoexitOthers": func(fr *frame, a []value) value { return nil },
 		"vndLog": func(fr *frame, a []value) value {
 			if fr.i.Log != nil {
